@@ -17,6 +17,21 @@ package main
 // over the same *sql.DB. Evaluator (2) is an independent in-memory evaluator
 // over a plain-SQL snapshot of the tables; if (1) and (2) disagree the process
 // exits 2 (MODEL-DISAGREEMENT), it is never a violation.
+//
+// Plan families. "general": the mixed history described above over two token
+// slots. "churn" (a share of the plans): up to five active tokens in a few
+// teams, a small pool of resources that every token is checked on, and a body
+// made of checks, membership changes (each usually followed by a re-check of
+// the keys that token was checked on before) and clock advances drawn as
+// FRACTIONS OF THE CONFIGURED RBAC CACHE TTL, with only an occasional other
+// mutation. It exists because the two RBAC caches (per-token data, decisions)
+// lose entries independently of each other — capacity eviction when more tokens
+// are active than the configured cache size, the expiry janitor when an entry
+// of one cache outlives the entry of the other it was computed from — and the
+// per-token invalidation of a membership change has to be right in every such
+// state; the general family almost never leaves a cache alone long enough
+// (most mutations clear everything) nor runs long enough in simulated time for
+// a janitor pass to fall between two expiries. Same oracle, same rule ids.
 
 import (
 	"context"
@@ -54,12 +69,14 @@ type Op struct {
 }
 
 type C20Plan struct {
-	Knobs NodeKnobs `json:"knobs"`
-	Ops   []Op      `json:"ops"`
+	Family string    `json:"family,omitempty"` // "" (general) | churn
+	Knobs  NodeKnobs `json:"knobs"`
+	Ops    []Op      `json:"ops"`
 }
 
 const (
 	nTok, nOrg, nTeam, nRole, nMP = 2, 2, 2, 3, 3
+	nTokMax                       = 5 // token slots (the general family uses the first nTok)
 )
 
 var (
@@ -141,6 +158,9 @@ func genMutation(r *simrt.Rand) Op {
 }
 
 func genC20(r *simrt.Rand, tier string) any {
+	if r.Chance(35) {
+		return genC20Churn(r, tier)
+	}
 	p := &C20Plan{}
 	p.Knobs = NodeKnobs{
 		Cluster:      r.Chance(45),
@@ -228,6 +248,157 @@ func genC20(r *simrt.Rand, tier string) any {
 		}
 	}
 	// final sweep over keys used before: every one is judged once more
+	seen := map[CheckReq]bool{}
+	for i := len(prev) - 1; i >= 0 && len(seen) < 6; i-- {
+		if !seen[prev[i]] {
+			seen[prev[i]] = true
+			add(Op{K: "check", S: c20CheckVias[r.Intn(len(c20CheckVias)-1)], Reqs: []CheckReq{prev[i]}})
+		}
+	}
+	return p
+}
+
+// genC20Churn draws a plan of the "churn" family (see the file comment).
+func genC20Churn(r *simrt.Rand, tier string) *C20Plan {
+	p := &C20Plan{Family: "churn"}
+	ttl := []int{200, 30000, 30000, 90000, 300000}[r.Intn(5)]
+	p.Knobs = NodeKnobs{
+		Cluster:      r.Chance(45),
+		Licensed:     !r.Chance(3),
+		AuthTTLMs:    []int{5, 200, 30000, 300000}[r.Intn(4)],
+		AuthCacheMax: []int{1, 2, 1000}[r.Intn(3)],
+		RBACTTLMs:    ttl,
+		RBACCacheMax: []int{1, 2, 2, 3, 3, 4, 100, 10000}[r.Intn(8)],
+		YieldOnDB:    r.Chance(30),
+	}
+	p.Knobs.Follower = p.Knobs.Cluster && r.Chance(25)
+	add := func(o Op) { p.Ops = append(p.Ops, o) }
+	k := 2 + r.Intn(nTokMax-1)
+	teams := 1 + r.Intn(2)
+	member := map[[2]int]bool{} // the generator's guess of the membership table (other mutations may falsify it: harmless)
+	for t := 0; t < k; t++ {
+		perms := ""
+		if r.Chance(45) {
+			perms = c20TokPerms[r.Intn(len(c20TokPerms))]
+		}
+		add(Op{K: "tok_create", A: t, S: perms})
+	}
+	add(Op{K: "org_create", A: 0})
+	for tm := 0; tm < teams; tm++ {
+		add(Op{K: "team_create", A: tm, B: 0})
+		add(Op{K: "role_create", A: tm, B: tm, S: c20DBPats[r.Intn(len(c20DBPats))], S2: c20PermSets[r.Intn(len(c20PermSets))]})
+	}
+	if r.Chance(25) {
+		add(Op{K: "mp_create", A: 0, B: 0, S: c20MeasPats[r.Intn(len(c20MeasPats))], S2: c20PermSets[r.Intn(len(c20PermSets))]})
+	}
+	for t := 0; t < k; t++ {
+		for tm := 0; tm < teams; tm++ {
+			if r.Chance([]int{75, 30}[tm]) {
+				add(Op{K: "member_add", A: t, B: tm})
+				member[[2]int{t, tm}] = true
+			}
+		}
+	}
+	// the resources every token is checked on
+	var pool []CheckReq
+	for i, n := 0, 2+r.Intn(3); i < n; i++ {
+		q := CheckReq{DB: c20DBs[r.Intn(3)], Perm: c20Perms[r.Intn(len(c20Perms))]}
+		if r.Chance(30) {
+			q.Meas = c20Meas[r.Intn(len(c20Meas))]
+		}
+		if r.Chance(50) {
+			q.Perm = "read"
+		}
+		pool = append(pool, q)
+	}
+	used := make([][]CheckReq, k) // per token: distinct keys checked so far, oldest first
+	note := func(q CheckReq) {
+		for _, u := range used[q.Tok] {
+			if u == q {
+				return
+			}
+		}
+		used[q.Tok] = append(used[q.Tok], q)
+	}
+	var prev []CheckReq
+	last := 0
+	genCheck := func() {
+		via := c20CheckVias[r.Intn(len(c20CheckVias))]
+		o := Op{K: "check", S: via}
+		n := 1
+		if via == "batch" {
+			n = 2 + r.Intn(3)
+		}
+		for j := 0; j < n; j++ {
+			q := pool[r.Intn(len(pool))]
+			q.Tok = r.Intn(k)
+			if r.Chance(35) {
+				q.Tok = last
+			}
+			last = q.Tok
+			o.Reqs = append(o.Reqs, q)
+			prev = append(prev, q)
+			note(q)
+		}
+		if p.Knobs.Follower && r.Chance(30) {
+			o.Node = "follower"
+		}
+		add(o)
+	}
+	for i, n := 0, 10+r.Intn(22); i < n; i++ {
+		switch w := r.Intn(100); {
+		case w < 50:
+			genCheck()
+		case w < 64:
+			ms := ttl * []int{5, 20, 40, 60, 80, 95, 105, 150}[r.Intn(8)] / 100
+			if ms < 1 {
+				ms = 1
+			}
+			add(Op{K: "advance", N: ms})
+		case w < 90:
+			t, tm := r.Intn(k), r.Intn(teams)
+			if r.Chance(20) {
+				t = last
+			}
+			if r.Chance(30) {
+				// give the token cache entries of different ages first: one key,
+				// part of a TTL later another key, then most of a TTL again
+				for j, pcts := 0, [2][]int{{20, 40, 60, 80}, {30, 50, 70, 90, 110}}; j < 2; j++ {
+					q := pool[r.Intn(len(pool))]
+					q.Tok = t
+					add(Op{K: "check", S: c20CheckVias[r.Intn(len(c20CheckVias))], Reqs: []CheckReq{q}})
+					prev = append(prev, q)
+					note(q)
+					add(Op{K: "advance", N: max(1, ttl*pcts[j][r.Intn(len(pcts[j]))]/100)})
+				}
+			}
+			kind := "member_add"
+			if member[[2]int{t, tm}] != r.Chance(15) {
+				kind = "member_remove"
+			}
+			add(Op{K: kind, A: t, B: tm})
+			member[[2]int{t, tm}] = kind == "member_add"
+			if len(used[t]) > 0 && r.Chance(80) {
+				// re-check what this token was checked on before the change
+				o := Op{K: "check", S: c20CheckVias[r.Intn(len(c20CheckVias))]}
+				u := used[t]
+				if len(u) > 3 {
+					u = u[len(u)-3:]
+				}
+				o.Reqs = append(o.Reqs, u...)
+				if p.Knobs.Follower && r.Chance(30) {
+					o.Node = "follower"
+				}
+				add(o)
+			}
+		case w < 94 && p.Knobs.Follower:
+			add(Op{K: "follower_apply", N: 1 + r.Intn(6)})
+		case w < 96:
+			add(genMutation(r))
+		default:
+			genCheck()
+		}
+	}
 	seen := map[CheckReq]bool{}
 	for i := len(prev) - 1; i >= 0 && len(seen) < 6; i-- {
 		if !seen[prev[i]] {
@@ -448,7 +619,7 @@ type c20run struct {
 	leader   *authNode
 	follower *authNode
 	log      *simLog
-	toks     [nTok]tokSlot
+	toks     [nTokMax]tokSlot
 	orgs     [nOrg]int64
 	teams    [nTeam]int64
 	roles    [nRole]int64
@@ -709,12 +880,14 @@ func (c *c20run) mutate(o Op) bool {
 		}
 	case "member_add":
 		if t, team := c.toks[o.A], c.teams[o.B]; t.issued && team != 0 {
+			c.probeCaches(t.id)
 			_, err = rm.AddTokenToTeam(ctx, t.id, team)
 		} else {
 			skip = true
 		}
 	case "member_remove":
 		if t, team := c.toks[o.A], c.teams[o.B]; t.issued && team != 0 {
+			c.probeCaches(t.id)
 			err = rm.RemoveTokenFromTeam(ctx, t.id, team)
 		} else {
 			skip = true
@@ -734,6 +907,22 @@ func (c *c20run) mutate(o Op) bool {
 	}
 	c.mutOK++
 	return true
+}
+
+// probeCaches records in which cache state a membership change finds the
+// token (coverage only).
+func (c *c20run) probeCaches(tokenID int64) {
+	dec, data := auth.VerifRBACCachedFor(c.leader.rm, tokenID, simrt.Now())
+	switch {
+	case dec > 0 && data:
+		c.out.Stats["probe.member_change_meets.decisions_and_token_data"]++
+	case dec > 0:
+		c.out.Stats["probe.member_change_meets.decisions_without_token_data"]++
+	case data:
+		c.out.Stats["probe.member_change_meets.token_data_without_decisions"]++
+	default:
+		c.out.Stats["probe.member_change_meets.cold_caches"]++
+	}
 }
 
 func (c *c20run) valueFor(q CheckReq) (string, bool) {
@@ -1121,6 +1310,10 @@ func descC20(planAny any) any {
 			mode += "+follower"
 		}
 	}
-	return map[string]any{"mode": mode, "licensed": p.Knobs.Licensed, "ops": len(p.Ops), "kinds": strings.Join(ks, " "),
+	fam := p.Family
+	if fam == "" {
+		fam = "general"
+	}
+	return map[string]any{"family": fam, "mode": mode, "licensed": p.Knobs.Licensed, "ops": len(p.Ops), "kinds": strings.Join(ks, " "),
 		"rbac_cache_ttl_ms": p.Knobs.RBACTTLMs, "rbac_cache_max": p.Knobs.RBACCacheMax, "auth_cache_ttl_ms": p.Knobs.AuthTTLMs}
 }
